@@ -18,7 +18,8 @@ EXPLANATION = (
     "deadlines are anchored in the context: start_execution sets StartTime/EnteredTime only when absent and change_state stamps EnteredTime "
     "before it publishes; (R5) both the termination gate and the join create the join state lazily before first use. Trusted: the broker "
     "redelivers what was unacknowledged. Not decided: equality of outcome with and without the crash; reply/event races around restart."
-    ' (R8) the absence of a store entry is tested by truthiness, never by comparing get()/get_cached_view() with None: RedisDictStore.__getitem__ (read from the source) returns a view for any key, so the arm that re-creates a lost execution record must not be dead code with Redis.')
+    ' (R8) the absence of a store entry is tested by truthiness, never by comparing get()/get_cached_view() with None: RedisDictStore.__getitem__ (read from the source) returns a view for any key, so the arm that re-creates a lost execution record must not be dead code with Redis.'
+    " (R9) the JSON store's file is replaced atomically: a crash during a write must not lose the definitions that were already on disk; reported on the current tree as D72.")
 RULE_TEXT = "obligation = one (entry, rule) for path rules; one guarded site / definition for the others; non-trivial = distinct (rule, site)"
 
 
@@ -221,6 +222,7 @@ def run(chk, ctx):
     from . import round5
     round5.store_absence_by_truthiness(chk, ctx, "C04.R8")   # the record of an execution lost with the engine is re-created
     round5.retry_arm_publishes_before_teardown(chk, ctx)
+    round5.json_store_rewrite_is_atomic(chk, ctx, "C04.R9")   # definitions accepted before the crash are (still) on disk
     from . import round4
     round4.clock_domains(chk, ctx)
     round4.teardown_after_terminal_notification(chk, ctx)   # a crash between the release of the held events and the notification loses the end
